@@ -65,7 +65,7 @@ def run(tier, seed):
             return [b'ab' * (n // 2) + b';x' + b'a' * 3 + b'!' + b'ab;x', b'a' * (n + 1) + b'!' + b'b;x', b'a' * max(0, n - 2) + b';x' + b'ba;x']
         return []
     out = ctrace.run_pipeline(chk, items, rng, seed, nwalks=6 if quick else 14, maxlen=16, chunk_mode='some', chunk_limit=2,
-                              sanitize=True, keep_records=True, extra_inputs=extra_inputs)
+                              sanitize=True, keep_records=True, extra_inputs=extra_inputs, cover=8 if quick else 20)
     try:
         progs = [p for p in out['progs'] if p.bin_san]
         # single-step sweeps of the sanitizer builds from forced contexts (empty / one-below-full / full buffers)
@@ -120,6 +120,7 @@ def run(tier, seed):
         chk.coverage = {
             'states': out['stats']['states'] + st['states'] + swst['states'], 'transitions': out['stats']['transitions'] + st['transitions'] + swst['transitions'],
             'traces_validated_against_impl': out['counts']['ACCEPT'] + swacc, 'single_step_sweeps': nsweeps, 'samples': ctrace.sample_cases(out, 3),
+            **ctrace.cover_cov(out),
             'programs': len(base), 'binaries_sanitized': len(progs), 'storage_modes': STORAGE,
             'trace_verdicts': dict(out['counts']), 'runs_aborted_or_hung': len(out['bad']), 'machine_reports': dict(kinds),
             'machine_reports_confirmed': confirmed, 'unbuildable': len(out['unbuildable']), 'exhaustive': False,
